@@ -106,3 +106,37 @@ Print Assumptions C09_quadratic_bin.
    whole spline through the knot construction from unnormalised parameters and the bin search --
    the knots' strict monotonicity from softmax/cumsum -- and (ii) monotonicity of the cubic (Steffen)
    bin.  Both are covered by the correspondence and the search on the implementation only. *)
+
+(* ---- the WHOLE rational-quadratic spline: knot construction (softmax -> affine -> cumulative sums -> scaling to the box ->
+   pinned ends), bin search and per-bin formula together.  For every configuration the code accepts (non-negative minimum
+   sizes with min * K <= 1, non-negative minimum derivative, positive softplus parameter, a non-degenerate box) and for ALL
+   unnormalised widths, heights and derivatives: every input of [left, right] is accepted, its image lies in [bottom, top],
+   the log-abs-det is the logarithm of a positive number, the end points are pinned, the map is strictly increasing on the
+   whole interval (across bins), and the inverse branch is its two-sided inverse with negated log-abs-det - so it is an
+   increasing bijection of the box. *)
+From NF Require Import Base.Result Model.SplineRQ Proofs.SplineRQWhole.
+
+Theorem C09_rq_whole_spline_is_an_increasing_bijection :
+  forall (c : @rq_cfg R) (bx : @box R) (uw uh ud : list R), rq_wellformed c bx uw uh ud ->
+  (forall x, b_left bx <= x <= b_right bx ->
+     exists y l, rq_spline Rops c false bx uw uh ud x = Ok (y, l) /\ (b_bottom bx <= y <= b_top bx) /\ (exists d, 0 < d /\ l = ln d)) /\
+  (F c bx uw uh ud (b_left bx) = b_bottom bx /\ F c bx uw uh ud (b_right bx) = b_top bx) /\
+  (forall a b, b_left bx <= a -> a < b -> b <= b_right bx -> F c bx uw uh ud a < F c bx uw uh ud b) /\
+  (forall x, b_left bx <= x <= b_right bx ->
+     rq_spline Rops c true bx uw uh ud (F c bx uw uh ud x) = Ok (x, - Flad c bx uw uh ud x)) /\
+  (forall y, b_bottom bx <= y <= b_top bx ->
+     exists x l, rq_spline Rops c true bx uw uh ud y = Ok (x, l) /\ (b_left bx <= x <= b_right bx) /\
+                 F c bx uw uh ud x = y /\ l = - Flad c bx uw uh ud x).
+Proof.
+  intros c bx uw uh ud [H1 [H2 [H3 [H4 [H5 [H6 [H7 [H8 [H9 [H10 H11]]]]]]]]]].
+  split; [apply whole_forward_range; assumption|]. split; [apply whole_end_points; assumption|].
+  split; [apply whole_increasing; assumption|]. split; [apply whole_inverse_of_forward; assumption | apply whole_forward_of_inverse; assumption].
+Qed.
+Print Assumptions C09_rq_whole_spline_is_an_increasing_bijection.
+
+(* the hypotheses are met by the library's default configuration for any box, up to 1000 bins and ANY parameter values *)
+Theorem C09_rq_default_configuration_is_wellformed : forall (bx : @box R) (uw uh ud : list R),
+  (0 < length uw <= 1000)%nat -> length uh = length uw -> length ud = S (length uw) ->
+  b_left bx < b_right bx -> b_bottom bx < b_top bx -> rq_wellformed (rq_default_cfg Rops) bx uw uh ud.
+Proof. exact default_wellformed. Qed.
+Print Assumptions C09_rq_default_configuration_is_wellformed.
